@@ -35,6 +35,8 @@ def configs(tier):
             for so in ("none", "uf"):
                 if tier == "quick" and rf == "none" and so == "uf":
                     continue
+                if len(cs) > 2 and so == "uf":
+                    continue
                 out.append({"classes": cs, "rfunc": rf, "sort": so})
     return out
 
